@@ -55,6 +55,9 @@ def register(reg):
                 1: dict(
                     invariants={
                         "popped_only_optional": "len(reqs) <= len(entry(reqs)) and all(entry(reqs)[j].optional for j in range(len(reqs), len(entry(reqs))))",
+                        # carries the postcondition through the loop, so that no single obligation has to reason about
+                        # filter + sort + pops at once (the combined query took z3 ~18 s, too close to the budget)
+                        "mandatory_kept": "all(implies(r.active and not r.optional, r in reqs) for r in self.requirements)",
                     },
                     decreases="len(reqs)",
                     modifies={"reqs": None},
